@@ -934,6 +934,9 @@ def build_advi(arg):
 
     if arg.coalescent in COALESCENT_PIECEWISE:
         jacobians_list.remove("coalescent.theta")
+        if arg.coalescent_non_centered:
+            # the GMRF variable log(theta) = cumsum(z) has a unit Jacobian
+            jacobians_list.remove("coalescent.theta.log")
 
     joint_jacobian = {
         'id': 'joint.jacobian',
